@@ -197,7 +197,7 @@ def build(run):
             return tot
         return check_same(mk, r, spec, (n, m), timeout_ms=max(tmo, 30000), what=tag)
 
-    rect = [(2, 1), (3, 1), (3, 2)] + ([(4, 2), (4, 3)] if thorough else [(4, 2)])
+    rect = [(2, 1), (3, 1), (3, 2), (4, 2)]      # (4, 3): the Gram-determinant identity (degree 6 in 12 unknowns under a square root) times out in z3 and cvc5: not claimed
     for sh in rect:
         ce_ob("pseudo_determinant_expr", sh, pdet_spec)
         ce_ob("determinant_expr", sh, pdet_spec)
